@@ -14,9 +14,10 @@ FILENAMES = ["f.txt", "g.TXT", ".dot", "h.log", "ż.bin", "a b.txt", "k", "m.txt
 SIZES = [0, 1, 50, 3000]
 
 
-def glob_re(g, ci=False):
-    """Reference translation of the simple globs used here (?, *, **, literals), checked against Glob.tla vectors in self_check()."""
-    out, i = "", 0
+def glob_re(g, ci=False, literal_prefix=""):
+    """Reference translation of the simple globs used here (?, *, **, literals), checked against Glob.tla vectors in self_check().
+    literal_prefix: text matched literally before the glob (the working directory of a relative pattern)."""
+    out, i = re.escape(literal_prefix), 0
     while i < len(g):
         if g.startswith("**", i):
             out += ".*"; i += 2
@@ -50,7 +51,9 @@ class Tree:
     def __init__(self, seed, mount=False):
         rng = self.rng = random.Random(seed)
         self.work = lib.mkscratch("c09")
-        self.base = os.path.join(self.work, "b")
+        # now and then a working directory whose own name is full of pattern syntax: it must be taken literally
+        self.meta = seed % 5 == 0
+        self.base = os.path.join(self.work, rng.choice(["v[1]", "{a,b}+(c)", "w.o$r^k", "q*z?", "@(x|y)"]) if self.meta else "b")
         os.makedirs(self.base)
         self.entries = []          # dict(id, parent, kind, path, name, size, target, dev, rules)
         self.mounted = []
@@ -159,6 +162,15 @@ class Tree:
 
 
 def gen_opts(rng, tree):
+    o = gen_opts0(rng, tree)
+    if tree.meta:
+        # absolute patterns would make the directory name part of the glob text: only relative ones here
+        for k in ("paths", "excludes"):
+            o[k] = [p[len(tree.base) + 1:] if p.startswith(tree.base + "/") else p for p in o[k]]
+    return o
+
+
+def gen_opts0(rng, tree):
     o = {"depth": rng.choice([None, None, 0, 1, 2, 3]), "hidden": rng.random() < 0.4, "noIgnore": rng.random() < 0.3, "follow": rng.random() < 0.3,
          "report": rng.random() < 0.3, "oneFs": bool(tree.mounted) and rng.random() < 0.7, "min": rng.choice([None, None, 0, 2]), "max": rng.choice([None, None, 100]),
          "names": [], "paths": [], "excludes": [], "regex": False, "ci": rng.random() < 0.25}
@@ -187,11 +199,10 @@ def gen_opts(rng, tree):
 def compile_pats(pats, base, regex, ci, is_path):
     out = []
     for p in pats:
+        prefix = ""
         if is_path and not p.startswith("/") and not (regex and p.startswith(".*")) and not p.startswith("**"):
-            p = base + "/" + p               # a relative pattern is relative to the working directory
-        elif is_path and not regex and p.startswith("**") is False:
-            pass
-        out.append(re.compile("^(?:" + p + ")$", re.S | (re.I if ci else 0)) if regex else glob_re(p, ci))
+            prefix = base + "/"              # a relative pattern is relative to the working directory, which is taken literally
+        out.append(re.compile("^" + re.escape(prefix) + "(?:" + p + ")$", re.S | (re.I if ci else 0)) if regex else glob_re(p, ci, prefix))
     return out
 
 
